@@ -14,6 +14,8 @@ def run(tier, seed):
     R = "markdown_it.ruler.Ruler."
     deductive(rep, "C10", [R + m for m in ("enable", "disable", "enableOnly", "at", "before", "after", "push", "__find__", "__compile__", "getRules")], "contracts.ruler",
               select=lambda q, ob, rel: ob.kind not in ("SAFE", "DEC"))
+    from .. import reads
+    reads.add_config_time_obligations(rep, "C10")
     import contracts.rxrules as RXR
     deductive(rep, "C10", [RXR.QH], "contracts.rxrules")
     deductive(rep, "C10", ["markdown_it.rules_block.html_block.html_block"], "contracts.block")
